@@ -1392,7 +1392,8 @@ namespace bluetoe {
             template< typename Service >
             void each()
             {
-                if ( !stoped_
+                // secondary services are not part of the primary service discovery
+                if ( !stoped_ && !Service::is_secondary
                     && ( starting_index_ != details::invalid_attribute_index && starting_index_ <= index_ )
                     && ( index_ <= ending_index_ || ending_index_ == details::invalid_attribute_index ) )
                 {
@@ -1690,7 +1691,9 @@ namespace bluetoe {
             template< typename Service >
             void each()
             {
-                if ( ( starting_index_ != details::invalid_attribute_index && starting_index_ <= index_ )
+                // secondary services are not part of the primary service discovery
+                if ( !Service::is_secondary
+                    && ( starting_index_ != details::invalid_attribute_index && starting_index_ <= index_ )
                     && ( index_ <= ending_index_ || ending_index_ == details::invalid_attribute_index ) )
                 {
                     const details::attribute& attr = Server::attribute_at( index_ );
